@@ -141,6 +141,33 @@ Definition trans_check (c : cyld) (kind k : Z) (mu to_det : dy) (beam det : v3d)
       if rel_close (dyQ T) m (e10 9) then "" else "transmission-model"
   end.
 
+(* the same for one detector and SEVERAL attenuation coefficients: the placed rule and the two path lengths of
+   every point (the expensive part) are computed once; [transmission_map] unfolds to exactly this expression
+   (Tie.v, transmission_map_unfold).  The directions are formed per scattering point, (det - p) / |det - p|.
+   Tolerance: 1e-9 relative, widened by 1e-13 |centre|_1 / min(r, h): a set-up that sits D away from the
+   coordinate origin is stored (and its points placed) with absolute rounding errors of a few ulp(D), i.e.
+   relative to the size of the solid eps D / min(r, h); the transmission is Lipschitz in the positions. *)
+Definition trans_tol (c : cyld) : Q :=
+  let cy := cq c in
+  let cen := center QO cy in
+  e10 9 + e10 13 * ((Qabs (vx cen) + Qabs (vy cen) + Qabs (vz cen)) / qmin (cy_r cy) (cy_h cy)).
+Definition trans_check_l (c : cyld) (kind k : Z) (to_det : dy) (beam det : v3d) (obs : list (dy * dy)) : string :=
+  match rule_forB kind k with
+  | None => "no-rule"
+  | Some rule =>
+      let cyb := cb c in
+      let bm := vb beam in
+      let dt := vb det in
+      let td := bq to_det in
+      let wl := map (fun q : vec BO * bigZ =>
+                       (snd q, scatter_distance BO cyb (fst q) bm (scatter_dir BO td dt (fst q))))
+                    (quadrature BO src_angle_mode cyb rule) in
+      let V := volume BO cyb in
+      let tol := trans_tol c in
+      if forallb (fun o : dy * dy => rel_close (dyQ (snd o)) (b_toQ (transmission BO (bq (fst o)) wl V)) tol) obs
+      then "" else "transmission-model"
+  end.
+
 (* properties of the observed transmission values *)
 Definition tprop_check (what : string) (x y tol : dy) : string :=
   if String.eqb what "range" then
@@ -186,6 +213,7 @@ Inductive ccase :=
 | CWeights (c : cyld) (kind k : Z) (ws : list dy)
 | CQuad (c : cyld) (kind k : Z) (obs : list (Z * v3d * dy))
 | CTrans (c : cyld) (kind k : Z) (mu to_det : dy) (beam det : v3d) (T : dy)
+| CTransL (c : cyld) (kind k : Z) (to_det : dy) (beam det : v3d) (obs : list (dy * dy))
 | CTprop (what : string) (x y tol : dy)
 | CTable (what : string) (kind k : Z).
 
@@ -196,6 +224,7 @@ Definition check (c : ccase) : string :=
   | CWeights c kind k ws => weights_check c kind k ws
   | CQuad c kind k obs => quad_check c kind k obs
   | CTrans c kind k mu td beam det T => trans_check c kind k mu td beam det T
+  | CTransL c kind k td beam det obs => trans_check_l c kind k td beam det obs
   | CTprop w x y tol => tprop_check w x y tol
   | CTable w kind k => table_check w kind k
   end.
